@@ -21,7 +21,10 @@ Histories == [1..Depth -> Status]
 
 (* C04: N pipelined loads, a fault of some kind at some request kind (index only for loads) *)
 Kinds == {"open", "get-running", "get-candidate", "load", "commit", "close-db", "close-session"}
-FaultKinds == {"rpc-error", "malformed", "wrong-id", "close-before", "close-after", "no-ok", "junos-error"}
+FaultKinds == {"rpc-error", "malformed", "wrong-id", "close-before", "close-after", "no-ok", "junos-error",
+               (* other shapes of an error reply: next to the positive indication (either order), after a warning, *)
+               (* with the base namespace bound to a prefix                                                       *)
+               "error+ok", "ok+error", "warning+error", "prefixed-error"}
 FaultCases ==
   {[n |-> n, target |-> "none", index |-> 0, kind |-> "none"] : n \in 0..3}
   \cup {[n |-> n, target |-> t, index |-> 0, kind |-> k] : n \in 0..3, t \in Kinds \ {"load"}, k \in FaultKinds}
